@@ -38,6 +38,7 @@ pub const SESSIONS: &[(&str, &str)] = &[
     ("module_outer_names", "base := 10\nm := mod { k := base + 1; get := () -> int { return k + base } }\nm.get()\nbase := 20\nm.get()\nm2 := mod { k := base + 1; get := () -> int { return k + base } }\n(m.k, m2.k, m2.get())"),
     ("toplevel_loop_control", "acc := mut [int] []\ni := mut 0\nloop { i += 1; if *i > 6 { break }; if *i % 2 == 0 { continue }; acc += [*i] }\n*acc\nfor e in [1, 2, 3, 4]~ { if e == 3 { break }; acc += [e * 10] }\n*acc\n(*i, std.len(*acc))"),
     ("iterator_across_inputs", "src := [1, 2, 3, 4, 5, 6]~\nev := src ? (x: int) -> bool { return x % 2 == 0 }\nev()\nsrc()\nev()\nrest := ev $]\nrest\n(src(), ev())"),
+    ("import_module", "m := import \"modp\"\nm.a\nm.f(2)\nn := import \"modp\"\n(m.a, n.a, n.s)\na := 100\nm.f(1)\nk := import \"modq\"\nk.inner.f(a)"),
     ("own_name_param", "f := (f: int, g: int) -> int { return f + g }\nf(1, 2)\ng := (x: int) -> int { g := x + 1; return g }\ng(1)\ng(2)"),
 ];
 
@@ -192,6 +193,33 @@ fn identifiers(statements: &[String]) -> Vec<String> {
     out.into_iter().collect()
 }
 
+/// A sample argument of type `t`: the value for the host route and the literal text for the
+/// language route. Function-typed parameters get a lambda of exactly that type.
+fn sample_arg(t: &Type, variant: usize) -> Option<(Variable, String)> {
+    if let Type::Function(ft) = t {
+        let params: Vec<String> = ft.params.iter().enumerate().map(|(i, p)| format!("q{i}: {}", ctype(p))).collect();
+        let body = if matches!(ft.return_type, Type::Void) {
+            String::new()
+        } else {
+            // variant 1 makes `bool` false: a function of iterator type is then an exhausted
+            // iterator (an always-true one would run every consumer into the fuel limit)
+            format!("return {}", sample_arg(&ft.return_type, 1)?.1)
+        };
+        let text = format!("({}) -> {} {{ {} }}", params.join(", "), ctype(&ft.return_type), body);
+        let scratch = Interpreter::with_stdlib();
+        let v = Code::parse(&scratch, &text).ok()?.exec().ok()?;
+        return Some((v, text));
+    }
+    if let Type::Tuple(ts) = t {
+        let parts: Vec<(Variable, String)> = ts.iter().map(|x| sample_arg(x, variant)).collect::<Option<_>>()?;
+        let v = Variable::Tuple(parts.iter().map(|p| p.0.clone()).collect());
+        return Some((v, format!("({})", parts.iter().map(|p| p.1.clone()).collect::<Vec<_>>().join(", "))));
+    }
+    let v = sample_args(t, variant)?;
+    let l = lit_of(&v)?;
+    Some((v, l))
+}
+
 fn sample_args(t: &Type, variant: usize) -> Option<Variable> {
     Some(match t {
         Type::Int => Variable::Int([7, 0, -3][variant % 3]),
@@ -285,7 +313,10 @@ pub fn run_scenario(sc: &Scenario) -> RunReport {
     let sc = sc.clone();
     let r = on_fresh_thread(sc.key_seed, move || {
         let mut rep = RunReport::default();
-        os::install(os::SimOs::new());
+        let mut sim_os = os::SimOs::new();
+        sim_os.nodes.insert("modp".into(), os::Node::File(b"a := 1; f := (x: int) -> int { return x + a }; s := \"t\"".to_vec()));
+        sim_os.nodes.insert("modq".into(), os::Node::File(b"inner := import \"modp\"; b := 2".to_vec()));
+        os::install(sim_os);
         let mut names = identifiers(&sc.statements);
         names.extend(["zz_new", "zz_f", "zz_c", "zz_a", "zz_b", "zz_m", "zz_in", "zz_e", "zz_t", "inner"].iter().map(|s| s.to_string()));
         names.sort();
@@ -478,24 +509,34 @@ pub fn run_scenario(sc: &Scenario) -> RunReport {
             for n in fnames {
                 let Some(Variable::Function(f)) = binterp.get_variable(&n).cloned() else { continue };
                 let Type::Function(ft) = f.as_type() else { continue };
-                let Some(good) = ft.params.iter().enumerate().map(|(i, p)| sample_args(p, i)).collect::<Option<Vec<_>>>() else { continue };
-                let mut vectors: Vec<Vec<Variable>> = vec![good.clone()];
+                let Some(good) = ft.params.iter().enumerate().map(|(i, p)| sample_arg(p, i)).collect::<Option<Vec<(Variable, String)>>>() else { continue };
+                let mut vectors: Vec<Vec<(Variable, String)>> = vec![good.clone()];
                 // too short / too long / ill-typed in one position
                 if !good.is_empty() {
                     vectors.push(good[..good.len() - 1].to_vec());
                     let mut bad = good.clone();
-                    bad[0] = match &bad[0] {
-                        Variable::Int(_) => Variable::from("oops"),
-                        _ => Variable::Int(99),
+                    bad[0] = match &bad[0].0 {
+                        Variable::Int(_) => (Variable::from("oops"), "\"oops\"".to_string()),
+                        _ => (Variable::Int(99), "99".to_string()),
                     };
                     vectors.push(bad);
+                    // a function where a non-function is expected and vice versa
+                    let mut swapped = good.clone();
+                    swapped[0] = match &swapped[0].0 {
+                        Variable::Function(_) => (Variable::Int(3), "3".to_string()),
+                        _ => match sample_arg(&simplesl::variable::Type::from(simplesl::variable::FunctionType { params: [].into(), return_type: Type::Int }), 0) {
+                            Some(f) => f,
+                            None => continue,
+                        },
+                    };
+                    vectors.push(swapped);
                 }
                 let mut long = good.clone();
-                long.push(Variable::Int(5));
+                long.push((Variable::Int(5), "5".to_string()));
                 vectors.push(long);
-                for args in vectors {
-                    let Some(lits) = args.iter().map(lit_of).collect::<Option<Vec<_>>>() else { continue };
-                    let text = format!("{n}({})", lits.join(", "));
+                for pairs in vectors {
+                    let args: Vec<Variable> = pairs.iter().map(|p| p.0.clone()).collect();
+                    let text = format!("{n}({})", pairs.iter().map(|p| p.1.clone()).collect::<Vec<_>>().join(", "));
                     rep.events += 2;
                     rep.hostcalls += 1;
                     let lang = guarded(|| Code::parse(&interp, &text).map(|c| c.exec()));
@@ -684,6 +725,7 @@ pub fn worker(input: &Value) -> Value {
     let shards = input["shards"].as_u64().unwrap();
     let runs = input["runs"].as_u64().unwrap();
     crate::boot::boot(boot_seed);
+    crate::run::FUEL_BUDGET.store(20_000, std::sync::atomic::Ordering::Relaxed);
     let pool = session_pool();
     let mut violations = Vec::new();
     let mut harness_errors = Vec::new();
@@ -699,7 +741,11 @@ pub fn worker(input: &Value) -> Value {
         if std::env::var_os("VERIF_TRACE").is_some() {
             eprintln!("run {run}: {}", sc.to_json());
         }
+        let t_run = std::time::Instant::now();
         let rep = run_scenario(&sc);
+        if std::env::var_os("VERIF_TRACE").is_some() {
+            eprintln!("took {} ms: {}", t_run.elapsed().as_millis(), sc.name);
+        }
         n += 1;
         if want_trace {
             trace.push(json!([run, trace_digest(&rep), sc.to_json()]));
@@ -745,6 +791,7 @@ pub fn trace_digest(rep: &RunReport) -> String {
 pub fn single(input: &Value) -> Value {
     let sc = Scenario::from_json(input);
     crate::boot::boot(sc.boot_seed);
+    crate::run::FUEL_BUDGET.store(20_000, std::sync::atomic::Ordering::Relaxed);
     let rep = run_scenario(&sc);
     json!({"violation": rep.violation.as_ref().map(|(c, d)| json!([c, d])), "log": rep.log, "harness_error": rep.harness_error, "trace_digest": trace_digest(&rep)})
 }
@@ -754,6 +801,7 @@ pub fn minimise(input: &Value) -> Value {
     let sc = Scenario::from_json(&input["scenario"]);
     let class = input["class"].as_str().unwrap().to_string();
     crate::boot::boot(sc.boot_seed);
+    crate::run::FUEL_BUDGET.store(20_000, std::sync::atomic::Ordering::Relaxed);
     let fails = |s: &Scenario| run_scenario(s).violation.as_ref().map_or(false, |(c, _)| *c == class);
     if !fails(&sc) {
         return json!({"reproduced": false});
@@ -776,6 +824,41 @@ pub fn minimise(input: &Value) -> Value {
         if fails(&only_again) {
             best = only_again;
         }
+    }
+    // when the way the statements are grouped into inputs matters, shrink input-wise: an item is
+    // one REPL input (its statements) together with the scoped executions that follow it
+    if !best.statements.is_empty() && !best.ops.iter().all(|o| matches!(o, HostOp::Feed(1))) {
+        let mut groups: Vec<(Vec<String>, Vec<HostOp>)> = Vec::new();
+        let mut pos = 0usize;
+        for op in &best.ops {
+            match op {
+                HostOp::Feed(k) => {
+                    let end = (pos + k).min(best.statements.len());
+                    groups.push((best.statements[pos..end].to_vec(), vec![]));
+                    pos = end;
+                }
+                other => {
+                    if let Some(g) = groups.last_mut() {
+                        g.1.push(other.clone());
+                    }
+                }
+            }
+        }
+        let template = best.clone();
+        let build = |gs: &[(Vec<String>, Vec<HostOp>)]| {
+            let mut s = template.clone();
+            s.statements = gs.iter().flat_map(|g| g.0.clone()).collect();
+            s.ops = gs.iter().flat_map(|g| std::iter::once(HostOp::Feed(g.0.len())).chain(g.1.iter().cloned())).collect();
+            s
+        };
+        let min = crate::ddmin::ddmin(&groups, |cand| {
+            trials += 1;
+            fails(&build(cand))
+        });
+        // drop the scoped executions if they are not needed
+        let stripped: Vec<(Vec<String>, Vec<HostOp>)> = min.iter().map(|g| (g.0.clone(), vec![])).collect();
+        trials += 1;
+        best = if fails(&build(&stripped)) { build(&stripped) } else { build(&min) };
     }
     if !best.statements.is_empty() {
         let feeds_single = best.ops.iter().all(|o| matches!(o, HostOp::Feed(1)));
